@@ -639,6 +639,9 @@ func init() {
 		r.CrashViolation(r.RunLeg("race", "C15rounds", 60*time.Minute, env), "MeasureClockOffsetSCION rounds")
 		r.Assume("uniformity: chi-square at p ~ 1e-9 over the chosen subsets with a uniform (seeded) word source, deterministic per seed; the full 2^32-word enumeration (thorough) only for n = 3")
 		r.Assume("paths are hand-built (no control plane); each path's next hop is its own scripted server; clients are told apart by DSCP; data race reports are recorded as observations (the property does not claim race freedom)")
+		if r.Only() == "" || r.Only() == "main:c15wiring" {
+			runMainLeg(r, "c15wiring")
+		}
 		r.Finish("part 1: crypto.Sample for k,n in 0..13 (and n up to 299) with crypto/rand.Reader replaced by a scripted word source (uniform, and small words that rejection sampling must retry): return value, range and injectivity of the pick(dst,src) assignment; "+
 			"RandIntn at the rejection threshold 2^32 mod n for 13 values of n; chi-square uniformity of the chosen k-subsets for 9 (k,n) pairs. part 2: rounds of the real MeasureClockOffsetSCION with 1..9 clients, interleaved mode on/off, 0..12 offered paths "+
 			"(withdrawals of previously used paths), every path served by its own scripted server reporting a distinct clock offset: per round the client->path relation observed on the wire must be injective, within the offer, of size min(clients, paths); "+
